@@ -111,11 +111,14 @@ def flow_b(ctx, mine, n, salt, kinds=("edited",)):
             vt = []
             if vtmode != "none":
                 base = w if kind == "edited" else s
-                rv = impl.call(dsw.set_vt, impl.dna(base), rng.choice([2, 3, 5, 33, 40]))
+                nvt = rng.choice([2, 3, 5, 33, 40])
+                rv = impl.call(dsw.set_vt, impl.dna(base), nvt)
                 if rv["out"] == "ok":
                     vt = impl.undna(rv["value"])
                     if vtmode == "wrong":
                         vt[0] = (vt[0] + 1) % 4
+                else:
+                    vt = [rng.randrange(4) for _ in range(nvt)]      # any string is a legitimate check to supply
             rec = {"start": start, "dna": s, "vt": vt, "indel": indel, "heap": heap}
             o = rf.run_repair(acc, start, s, k, vt, indel, heap)
             cases.append(rf.case_of(gi, rec, o, w=ww, es=es))
